@@ -126,7 +126,8 @@ def build(root, sizes, L, single=False, for_verify=False, damage=None, disk_name
     for i, d in (damage or {}).items():
         c = contents[i]
         on_disk[i] = None if d == 'missing' else c[:-1] if d == 'short' else c + b'x' if d == 'long' else \
-            (c[:d[1]] + bytes([c[d[1]] ^ 0xFF]) + c[d[1] + 1:]) if isinstance(d, tuple) and d[0] == 'flip' else c
+            (c[:d[1]] + bytes([c[d[1]] ^ 0xFF]) + c[d[1] + 1:]) if isinstance(d, tuple) and d[0] == 'flip' else \
+            (c[:d[1]] + c[d[2]:d[2] + L] + c[d[1] + L:]) if isinstance(d, tuple) and d[0] == 'twin' else c
     cp = sl.write_tree(root, on_disk, single=single, name=disk_name or sl.NAME)      # verify: the top-level name on disk may differ
     if for_verify:
         t = sl.make_torrent(sizes, L, single=single, hashes=ref)
